@@ -26,7 +26,9 @@ func init() {
 		Assumptions: []string{
 			"how x/text/language ranks near-miss languages is not part of the property; only exact matches and the consistency of the choice are judged",
 			"the lookup engine itself (Apply) is judged by C06/C07; here it is the middle stage of the composition",
-			"kern 'minimum' subtables raise the accumulated value to at least the given value; cross-stream / vertical / non-format-0 subtables are ignored",
+			"kern 'minimum' subtables raise the accumulated value to at least the given value (on the first subtable: against the implicit 0 every pair starts with); cross-stream / vertical / non-format-0 subtables are ignored",
+			"a pair whose accumulated value leaves the FWORD range (and is not replaced by a later override subtable) has no value the kern specification or the property defines: such pairs are laid out (no panic) but their value is not judged (skip class kern:accumulated-value-outside-int16)",
+			"feature / lookup indices beyond the lists (stratum select) are what gtab.Read delivers for files with dangling indices: they select nothing, the in-range part of the selection is unaffected",
 		},
 	}, runC15)
 }
@@ -171,12 +173,32 @@ func sameSeq(a, b []glyph.Info) bool {
 	return true
 }
 
-// c15kernTable assembles a kern table (version 0) and returns the reference values.
-func c15kernTable(k *mon.Case, n int, huge bool) ([]byte, map[glyph.Pair]int) {
+// c15kernValue draws one kerning value: mostly small, sometimes at or near the
+// limits of the FWORD range.
+func c15kernValue(k *mon.Case, cls map[string]bool) int16 {
 	r := k.Rng
-	ref := map[glyph.Pair]int{}
+	switch r.IntN(12) {
+	case 0:
+		cls["kern-value:int16-extreme"] = true
+		return []int16{32767, -32768, 32766, -32767, 0x4000, -0x4000, 0x7F00, -0x7F00, 255, 256, -256, -255}[r.IntN(12)]
+	case 1:
+		cls["kern-value:large"] = true
+		return int16(r.IntN(65536) - 32768)
+	}
+	return int16(r.IntN(601) - 300)
+}
+
+// c15kernTable assembles a kern table (version 0) and returns the reference
+// values.  open lists the pairs whose accumulated value leaves the FWORD range
+// at some point (and is not replaced by an override subtable later): the kern
+// specification does not say what the value of such a pair is.
+func c15kernTable(k *mon.Case, n int, huge bool) (out []byte, ref map[glyph.Pair]int, open map[glyph.Pair]bool) {
+	r := k.Rng
+	ref = map[glyph.Pair]int{}
+	open = map[glyph.Pair]bool{}
+	cls := map[string]bool{}
+	var refKeys []glyph.Pair // keys of ref in the order of first appearance (fixed order for the PRNG)
 	nsub := 1 + r.IntN(4)
-	var out []byte
 	out = binary.BigEndian.AppendUint16(out, 0)
 	out = binary.BigEndian.AppendUint16(out, uint16(nsub))
 	for s := 0; s < nsub; s++ {
@@ -198,7 +220,9 @@ func c15kernTable(k *mon.Case, n int, huge bool) ([]byte, map[glyph.Pair]int) {
 		}
 		flags := byte(1) // horizontal
 		kind := "accumulate"
-		if s > 0 {
+		// the first subtable may carry the minimum / override flags as well: the
+		// value accumulated so far is 0 for every pair
+		if s > 0 || r.IntN(3) == 0 {
 			switch r.IntN(4) {
 			case 0:
 				flags |= 2
@@ -220,16 +244,25 @@ func c15kernTable(k *mon.Case, n int, huge bool) ([]byte, map[glyph.Pair]int) {
 			kind = "ignored"
 		}
 		k.Class("kern-subtable:" + kind)
+		if s == 0 {
+			k.Class("kern-first-subtable:" + kind)
+		}
 		pairs := map[glyph.Pair]int16{}
 		for len(pairs) < np && len(pairs) < n*n {
 			p := glyph.Pair{Left: glyph.ID(r.IntN(n)), Right: glyph.ID(r.IntN(n))}
-			if s > 0 && r.IntN(2) == 0 && len(ref) > 0 && !(huge && s == nsub-1) {
-				for q := range ref { // hit an existing pair
-					p = q
-					break
+			if s > 0 && r.IntN(2) == 0 && len(refKeys) > 0 && !(huge && s == nsub-1) {
+				p = refKeys[r.IntN(len(refKeys))] // hit an existing pair
+				if r.IntN(3) == 0 {
+					// push the accumulated value towards (and beyond) the end of the FWORD range
+					if ref[p] >= 0 {
+						pairs[p] = int16(32767 - r.IntN(200))
+					} else {
+						pairs[p] = int16(-32768 + r.IntN(200))
+					}
+					continue
 				}
 			}
-			pairs[p] = int16(r.IntN(601) - 300)
+			pairs[p] = c15kernValue(k, cls)
 		}
 		var keys []glyph.Pair
 		for p := range pairs {
@@ -263,19 +296,43 @@ func c15kernTable(k *mon.Case, n int, huge bool) ([]byte, map[glyph.Pair]int) {
 			out = binary.BigEndian.AppendUint16(out, uint16(p.Right))
 			out = binary.BigEndian.AppendUint16(out, uint16(pairs[p]))
 			v := int(pairs[p])
+			if _, seen := ref[p]; !seen && kind != "ignored" {
+				refKeys = append(refKeys, p)
+				ref[p] = 0
+			}
 			switch kind {
 			case "accumulate":
 				ref[p] += v
+				if ref[p] > 32767 || ref[p] < -32768 {
+					open[p] = true
+					cls["kern:accumulation-leaves-int16"] = true
+				}
 			case "minimum":
 				if ref[p] < v {
 					ref[p] = v
 				}
+				if s == 0 {
+					if v > 0 {
+						cls["kern-first-subtable:minimum-raises-implicit-0"] = true
+					} else if v < 0 {
+						cls["kern-first-subtable:minimum-below-implicit-0"] = true
+					}
+				}
 			case "override":
 				ref[p] = v
+				delete(open, p)
 			}
 		}
 	}
-	return out, ref
+	var names []string
+	for c := range cls {
+		names = append(names, c)
+	}
+	sort.Strings(names)
+	for _, c := range names {
+		k.Class(c)
+	}
+	return out, ref, open
 }
 
 func runC15(c *mon.Ctx) {
@@ -294,10 +351,52 @@ func runC15(c *mon.Ctx) {
 		nl := 1 + r.IntN(10)
 		info := &gtab.Info{ScriptList: gtab.ScriptListInfo{}}
 		tags := []string{"liga", "kern", "smcp", "calt", "ccmp", "mark", "dlig", "onum", "test"}
+		// out-of-range indices (what gtab.Read delivers for files with dangling
+		// indices): about a quarter of the cases carry some; the property promises
+		// in-range results, and the in-range part must be unaffected
+		wild := r.IntN(4) == 0
+		oorLookup, oorFeature, oorRequired := false, false, false
+		lookupIndex := func() gtab.LookupIndex {
+			if wild && r.IntN(4) == 0 {
+				oorLookup = true
+				switch r.IntN(4) {
+				case 0:
+					return gtab.LookupIndex(nl) // first index behind the list
+				case 1:
+					return 0xFFFF
+				case 2:
+					return gtab.LookupIndex(nl + 256*(1+r.IntN(255))) // low byte in range
+				}
+				return gtab.LookupIndex(nl + r.IntN(0x10000-nl))
+			}
+			return gtab.LookupIndex(r.IntN(nl))
+		}
+		featureIndex := func(required bool) gtab.FeatureIndex {
+			if wild && r.IntN(4) == 0 {
+				if required {
+					oorRequired = true
+				} else {
+					oorFeature = true
+				}
+				switch r.IntN(4) {
+				case 0:
+					return gtab.FeatureIndex(nf)
+				case 1:
+					if required {
+						return 0xFFFE // 0xFFFF means "no required feature"
+					}
+					return 0xFFFF
+				case 2:
+					return gtab.FeatureIndex(nf + 256*(1+r.IntN(255)))
+				}
+				return gtab.FeatureIndex(nf + r.IntN(0xFFFF-nf))
+			}
+			return gtab.FeatureIndex(r.IntN(nf))
+		}
 		for i := 0; i < nf; i++ {
 			ft := &gtab.Feature{Tag: tags[r.IntN(len(tags))]}
 			for j := r.IntN(4); j > 0; j-- {
-				ft.Lookups = append(ft.Lookups, gtab.LookupIndex(r.IntN(nl)))
+				ft.Lookups = append(ft.Lookups, lookupIndex())
 			}
 			info.FeatureList = append(info.FeatureList, ft)
 		}
@@ -309,10 +408,10 @@ func runC15(c *mon.Ctx) {
 		for i := 0; i < nls && i < len(canon); i++ {
 			ls := &gtab.Features{Required: 0xFFFF}
 			if r.IntN(2) == 0 {
-				ls.Required = gtab.FeatureIndex(r.IntN(nf))
+				ls.Required = featureIndex(true)
 			}
 			for j := r.IntN(5); j > 0; j-- {
-				ls.Optional = append(ls.Optional, gtab.FeatureIndex(r.IntN(nf)))
+				ls.Optional = append(ls.Optional, featureIndex(false))
 			}
 			info.ScriptList[canon[perm[i]]] = ls
 		}
@@ -328,10 +427,7 @@ func runC15(c *mon.Ctx) {
 		var lang language.Tag
 		switch r.IntN(4) {
 		case 0, 1: // exactly a key
-			for t := range info.ScriptList {
-				lang = t
-				break
-			}
+			lang = canon[perm[r.IntN(min(nls, len(canon)))]]
 		case 2:
 			lang = canon[r.IntN(len(canon))]
 		default:
@@ -341,6 +437,17 @@ func runC15(c *mon.Ctx) {
 		k.Distinct(desc)
 		checkSelection(k, info, lang, on, desc)
 		k.Class(fmt.Sprintf("language-systems=%d", min(len(info.ScriptList), 5)))
+		if !k.Failed() {
+			if oorLookup {
+				k.Class("select:lookup-index-out-of-range")
+			}
+			if oorFeature {
+				k.Class("select:optional-feature-index-out-of-range")
+			}
+			if oorRequired {
+				k.Class("select:required-feature-index-out-of-range")
+			}
+		}
 		if k.Index < 2 {
 			k.Sample(desc)
 		}
@@ -652,7 +759,7 @@ func runC15(c *mon.Ctx) {
 		if !ok {
 			return
 		}
-		kt, ref := c15kernTable(k, n, huge)
+		kt, ref, open := c15kernTable(k, n, huge)
 		b := addTable(wb, "kern", kt)
 		k.Input(b)
 		k.DistinctBytes(kt)
@@ -680,6 +787,12 @@ func runC15(c *mon.Ctx) {
 				return
 			}
 			k.Eval()
+			if open[p] {
+				// the accumulated value is not a FWORD: neither the kern specification
+				// nor the property says what the pair's value is (only: no panic)
+				k.Skip("kern:accumulated-value-outside-int16")
+				return
+			}
 			want := int(g.GlyphWidth(p.Left)) + ref[p]
 			if want > 32767 || want < -32768 {
 				k.Skip("kern:advance-outside-int16")
@@ -690,7 +803,20 @@ func runC15(c *mon.Ctx) {
 			}
 		}
 		cnt := 0
+		var refPairs []glyph.Pair
 		for p := range ref {
+			refPairs = append(refPairs, p)
+		}
+		sort.Slice(refPairs, func(i, j int) bool {
+			if refPairs[i].Left != refPairs[j].Left {
+				return refPairs[i].Left < refPairs[j].Left
+			}
+			return refPairs[i].Right < refPairs[j].Right
+		})
+		if len(refPairs) > 400 {
+			r.Shuffle(len(refPairs), func(i, j int) { refPairs[i], refPairs[j] = refPairs[j], refPairs[i] })
+		}
+		for _, p := range refPairs {
 			check(p)
 			if k.Failed() {
 				return
@@ -803,7 +929,10 @@ func runC15(c *mon.Ctx) {
 		k.Class(fmt.Sprintf("fixed-pitch=%v", isFixed))
 	})
 	req := []string{"select:exact-language", "select:non-matching-language,>=2-systems", "layout:gsub-effect", "layout:gpos-effect", "layout:no-rule-applies",
-		"kern:glyf", "kern:cff", "kern-subtable:accumulate", "kern-subtable:minimum", "kern-subtable:override", "kern-subtable:ignored", "kern-subtable:>10920-pairs", "layout:gdef-marks", "layout:history-compared", "layout:second-layouter-flipped-switches", "fixed-pitch=true", "fixed-pitch=false",
+		"kern:glyf", "kern:cff", "kern-subtable:accumulate", "kern-subtable:minimum", "kern-subtable:override", "kern-subtable:ignored", "kern-subtable:>10920-pairs",
+		"kern-first-subtable:minimum", "kern-first-subtable:override", "kern-first-subtable:minimum-raises-implicit-0", "kern-first-subtable:minimum-below-implicit-0",
+		"kern-value:int16-extreme", "kern-value:large", "kern:accumulation-leaves-int16",
+		"select:lookup-index-out-of-range", "select:optional-feature-index-out-of-range", "select:required-feature-index-out-of-range", "layout:gdef-marks", "layout:history-compared", "layout:second-layouter-flipped-switches", "fixed-pitch=true", "fixed-pitch=false",
 		"features:all-off", "features:explicit", "features:nil-defaults", "layout:cmap=mac", "layout:cmap=12", "layout:ligature-ignores-marks"}
 	for s := 0; s < 32; s++ {
 		req = append(req, fmt.Sprintf("ligature-subset=%d", s))
